@@ -11,6 +11,8 @@ import (
 	"hop.computer/hop/common"
 	"hop.computer/hop/config"
 	"hop.computer/hop/core"
+	"hop.computer/hop/keys"
+	"hop.computer/hop/flags"
 	"hop.computer/hop/portforwarding"
 	"hop.computer/hop/transport"
 	"hop.computer/hop/tubes"
@@ -83,7 +85,7 @@ func VH_C09_both_ends_of_a_session_pick_identifiers_of_opposite_parity() {
 // else the host name.
 //
 //verif:prop C01
-//verif:bounds ServerName, ServerIPv4, ServerIPv6, Hostname each empty or one symbolic byte (all 16 combinations, including all empty)
+//verif:bounds ServerName, ServerIPv4, ServerIPv6, Hostname, ServerKEMKey, ServerKEMKeyPath each empty or one symbolic byte (all 64 combinations, including all empty)
 //verif:cover built
 func VH_C01_client_always_requests_the_configured_server_name() {
 	opt := func(tag string) string {
@@ -93,6 +95,8 @@ func VH_C01_client_always_requests_the_configured_server_name() {
 		return ""
 	}
 	hc := &config.HostConfig{ServerName: opt("ServerName"), ServerIPv4: opt("ServerIPv4"), ServerIPv6: opt("ServerIPv6"), Hostname: opt("Hostname")}
+	// hidden mode or not: the KEM key settings must not change what name is asked for
+	hc.ServerKEMKey, hc.ServerKEMKeyPath = opt("ServerKEMKey"), opt("ServerKEMKeyPath")
 	v := constructVerifyConfig(hc)
 	verifCover("built")
 	verifAssert(!v.Name.IsZero(), "C01: the client never hands the transport the zero name (the leaf's name is always checked)")
@@ -164,4 +168,72 @@ func VH_C11_client_survives_any_tube_the_server_opens() {
 	for verifRunGo("HandlePF") {
 	}
 	verifCover("handled")
+}
+
+// C09 (principal): the sub-client a principal opens towards a TARGET runs its
+// own muxer on its OWN transport connection, with the client role. Building it
+// on the principal's existing session would put two client-role muxers on one
+// session: the sub-client's tubes would draw identifiers from the principal's
+// own space and its bytes would surface in the principal's tubes.
+
+var c09Sub struct {
+	dialled   *transport.Client
+	muxerConn transport.MsgConn
+	role      string
+}
+
+func c09LoadConfig(f *flags.ClientFlags) (*config.HostConfig, error) {
+	return &config.HostConfig{Hostname: "target.example", IsPrincipal: true}, nil
+}
+func c09AuthSetup(c *HopClient) error {
+	c.authenticator = &c09Auth{}
+	return nil
+}
+func c09DialNP(address string, tube transport.UDPLike, cfg transport.ClientConfig) (*transport.Client, error) {
+	c09Sub.dialled = &transport.Client{}
+	return c09Sub.dialled, nil
+}
+func c09Handshake(c *transport.Client) error { return nil }
+func c09UserAuthorization(c *HopClient) error { return nil }
+func c09TubesClient(conn transport.MsgConn, cfg *tubes.Config) *tubes.Muxer {
+	c09Sub.muxerConn, c09Sub.role = conn, "client"
+	return &tubes.Muxer{}
+}
+func c09TubesServer(conn transport.MsgConn, cfg *tubes.Config) *tubes.Muxer {
+	c09Sub.muxerConn, c09Sub.role = conn, "server"
+	return &tubes.Muxer{}
+}
+
+type c09Auth struct{}
+
+func (*c09Auth) Share() []byte                          { return nil }
+func (*c09Auth) Agree([]byte) ([]byte, error)           { return nil, nil }
+func (*c09Auth) GetVerifyConfig() transport.VerifyConfig { return transport.VerifyConfig{} }
+func (*c09Auth) GetLeaf() *certs.Certificate            { return nil }
+func (*c09Auth) GetServerKEMKey() *keys.KEMPublicKey    { return nil }
+
+//verif:prop C09
+//verif:replay none
+//verif:stub hop.computer/hop/flags.LoadClientConfigFromFlags = c09LoadConfig
+//verif:stub (*hop.computer/hop/hopclient.HopClient).authenticatorSetup = c09AuthSetup
+//verif:stub hop.computer/hop/transport.DialNP = c09DialNP
+//verif:stub (*hop.computer/hop/transport.Client).Handshake = c09Handshake
+//verif:stub (*hop.computer/hop/hopclient.HopClient).userAuthorization = c09UserAuthorization
+//verif:stub hop.computer/hop/tubes.Client = c09TubesClient
+//verif:stub hop.computer/hop/tubes.Server = c09TubesServer
+//verif:bounds the real HopClient.setupTargetClient of a connected principal; configuration loading, authentication set-up, dialling, handshake and user authorization succeed (stubs); the muxer constructors record the connection and role they are given
+//verif:cover set-up
+func VH_C09_principal_subclient_runs_its_own_muxer_on_its_own_connection() {
+	principalConn := &transport.Client{}
+	c := &HopClient{hostconfig: &config.HostConfig{IsPrincipal: true}, TransportConn: principalConn, TubeMuxer: &tubes.Muxer{}}
+	c09Sub.dialled, c09Sub.muxerConn, c09Sub.role = nil, nil, ""
+	ps, err := c.setupTargetClient(core.URL{Host: "target.example", Port: "77", User: "u"}, &tubes.Unreliable{}, nil)
+	verifAssert(err == nil && ps != nil && ps.client != nil, "C09: the sub-client is set up")
+	if err != nil || ps == nil || ps.client == nil {
+		return
+	}
+	verifCover("set-up")
+	verifAssert(ps.client.TransportConn == c09Sub.dialled && c09Sub.dialled != principalConn, "C09: the sub-client has its own transport connection to the target")
+	verifAssert(c09Sub.muxerConn == transport.MsgConn(c09Sub.dialled), "C09: the sub-client's muxer runs on the sub-client's own connection, never on the principal's session")
+	verifAssert(c09Sub.role == "client", "C09: the sub-client's muxer has the client role")
 }
